@@ -44,7 +44,7 @@ def check_case(ctx, r, indent, eol, add_ws=True):
 
 
 def _check_case(ctx, r, indent, eol, add_ws):
-    obj = gen.build(r)
+    obj = gen.build_root(r)
     wit = {"recipe": r, "indent": indent, "eol": eol, "add_ws": add_ws}
     if r["k"] == "list":
         got = obj.get_html_string(indent, eol, add_ws=add_ws)
